@@ -7,6 +7,7 @@
 import M4riProofs.W.RowCol
 import M4riProofs.W.Perm
 import M4riProofs.GenTieMem
+import M4riProofs.GenTieAlg
 namespace M4ri.Props.C13
 open M4ri M4ri.Mzd
 
@@ -147,5 +148,10 @@ example : exM.WF ∧ (∀ k, k < min (#[1, 1] : Array Nat).size exM.nrows → (#
 #check @M4ri.GenTieMem.mzdClearBits_eq
 #check @M4ri.GenTieMem.mzdWriteBit_eq
 #check @M4ri.GenTieMem.mzdReadBit_eq
+
+
+/-! ### tie to the C text (generated by vlib/ctrans.py on every check, proved equal to the model in GenTieAlg.lean) -/
+#check @M4ri.GenTieAlg.mzdRowSwap0_eq
+#check @M4ri.GenTieAlg.mzdRowAdd_eq
 
 end M4ri.Props.C13
